@@ -213,7 +213,8 @@ void free_memory_list::deallocate(void* ptr, std::size_t n) noexcept
     else
     {
         auto mem = detail::debug_fill_free(ptr, n, 0);
-        insert_impl(mem, n);
+        // the array occupies every node it overlaps, not only the full ones
+        insert_impl(mem, (n + node_size_ - 1) / node_size_ * node_size_);
     }
 }
 
@@ -512,7 +513,8 @@ void ordered_free_memory_list::deallocate(void* ptr, std::size_t n) noexcept
     else
     {
         auto mem  = detail::debug_fill_free(ptr, n, 0);
-        auto prev = insert_impl(mem, n);
+        // the array occupies every node it overlaps, not only the full ones
+        auto prev = insert_impl(mem, (n + node_size_ - 1) / node_size_ * node_size_);
 
         last_dealloc_      = static_cast<char*>(mem);
         last_dealloc_prev_ = prev;
